@@ -248,8 +248,8 @@ parser! {
     rule bit_string_literal() -> BitStringLiteral = data_type:(t:bit_string_literal_type() tok(TokenType::Hash) {t})? value:(bi:binary_integer() { bi }/ oi:octal_integer() { oi } / hi:hex_integer() { hi } / ui:integer() { ui } ) { BitStringLiteral { value, data_type } }
     rule boolean_literal() -> BooleanLiteral =
       // 1 and 0 can be a Boolean, but only with the prefix is it definitely a Boolean
-      tok(TokenType::Bool) tok(TokenType::Hash) id_eq("1") { BooleanLiteral::new(Boolean::True) }
-      / tok(TokenType::Bool) tok(TokenType::Hash) id_eq("0") { BooleanLiteral::new(Boolean::False) }
+      tok(TokenType::Bool) tok(TokenType::Hash) tok_eq(TokenType::Digits, "1") { BooleanLiteral::new(Boolean::True) }
+      / tok(TokenType::Bool) tok(TokenType::Hash) tok_eq(TokenType::Digits, "0") { BooleanLiteral::new(Boolean::False) }
       / tok(TokenType::Bool) tok(TokenType::Hash) tok(TokenType::True)  { BooleanLiteral::new(Boolean::True) }
       / tok(TokenType::True) { BooleanLiteral::new(Boolean::True) }
       / tok(TokenType::Bool) tok(TokenType::Hash) tok(TokenType::False) { BooleanLiteral::new(Boolean::False) }
